@@ -165,7 +165,17 @@ def bypass(prog, chk):
                     some_t = [tgt for v, tgt in s2[1]["vals"] if v == 1]
             falses = [b for b, i, s in irs.all_stmts() if "lhs" in s and s["lhs"][0] == 0 and not s["lhs"][1] and (op_const(s["rv"].get("op")) or {}).get("bool") is False and some_t and irs.dominates(some_t[0], b)]
             ok = bool(ok_t) and bool(some_t) and all(irs.dominates(ok_t[0], b) for b in falses)
-    chk.ob(ok, "A13.bypass", "is_real_svg:skips-non-elements", irs.where(), "is_real_svg decides on the first *element*; every other event (declaration, doctype, PI, comment, text) is skipped", "is_real_svg can answer `false` on a non-element event before the root (e.g. a DOCTYPE): such real SVG documents would be processed as svgdx")
+    if not ok and not irs.loops:
+        # `events.iter().find_map(|ev| SvgElement::try_from(ev.clone()).ok())`: the first event that converts
+        fm = irs.call_sites(lambda c: c.decl_path == "std::iter::Iterator::find_map")
+        clos = [cb for cb in prog.closures_of(irs) if cb.call_sites(lambda c: c.decl_path == "std::convert::TryFrom::try_from") and cb.call_sites(lambda c: c.path.endswith("Result::<T, E>::ok"))]
+        if fm and clos:
+            ok = True
+        elif not tf and not fm:
+            chk.anchor_missing("A13.bypass", "is_real_svg: neither a loop over the events nor find_map(try_from) found")
+            ok = None
+    if ok is not None:
+        chk.ob(ok, "A13.bypass", "is_real_svg:skips-non-elements", irs.where(), "is_real_svg decides on the first *element*; every other event (declaration, doctype, PI, comment, text) is skipped", "is_real_svg can answer `false` on a non-element event before the root (e.g. a DOCTYPE): such real SVG documents would be processed as svgdx")
 
 
 def _in_loop_region(body, blocks, b):
@@ -177,8 +187,30 @@ def _svg_xmlns_guard(body, site_bb):
     from sa import discharge as D
     conds = D.dom_conditions(body, site_bb)
     has_eq = any(kind == "call" and payload[0] == "eq" and truth for kind, payload, truth in conds)
-    has_xmlns = any(kind == "call" and payload[0] in ("is_some",) and truth for kind, payload, truth in conds)
-    return has_eq and has_xmlns
+    has_xmlns = any(kind == "call" and payload[0] in ("is_some", "has_attr", "contains_key") and truth for kind, payload, truth in conds)
+    if has_eq and has_xmlns:
+        return True
+    # the two tests may have been folded into one boolean (a predicate helper such as `is_namespaced_svg(el)`, spliced in
+    # by sa/inline.py): both tests are made before the exit and the exit is taken on their combined result
+    before = [b for b in body.reachable if site_bb in body.reach([b]) and b != site_bb]
+    seen_eq = seen_ns = False
+    for b in before:
+        t = body.term(b)
+        if t["k"] != "call" or "fn" not in t:
+            continue
+        c = Callee(t["fn"])
+        last = c.path.split("::")[-1]
+        lits = []
+        for a in t.get("args", []):
+            o = R.origin(body, a, carriers=dict(R.CARRIERS))
+            if o[0] == "const" and "str" in o[1]:
+                lits.append(o[1]["str"])
+        if last in ("eq", "ne") and "svg" in lits:
+            seen_eq = True
+        if last in ("get_attr", "has_attr", "contains_key", "get") and "xmlns" in lits:
+            seen_ns = True
+    guarded = any(body.term(a)["k"] == "switch" for (a, x) in D.dominating_edges(body, site_bb))
+    return seen_eq and seen_ns and guarded
 
 
 def stable_sort(prog, chk):
